@@ -38,6 +38,7 @@ def actOfJson (j : Json) : Except String Act := do
   | "envSet" => pure (Act.envSet (← jbool j "force") (← jbool j "fwd") k (← jstr j "v"))
   | "path" => pure (Act.path (← jbool j "force") k (← jstr j "v"))
   | "unset" => pure (Act.unset k)
+  | "alias" => pure (Act.alias (← jbool j "force") (← jbool j "fwd") k (← jstr j "v"))
   | _ => throw s!"unknown act {op}"
 
 /-- ops:
@@ -67,10 +68,11 @@ def handle : Handler := fun j => do
     let acts ← (← jarr j "acts").mapM actOfJson
     let s := runActs (← jbool j "pinned") acts base
     let o ← optsOfJson (← j.getObjVal? "opts")
-    match emit o s.old s.cur [] [] with
+    match emit o s.old s.cur s.aliases s.oldAliases with
     | none => pure (Json.mkObj [("unmodelled", true)])
     | some cmds => pure (Json.mkObj [("old", optToJson s.old), ("cur", envToJson (finalEnv o s.cur)),
-                                     ("cmds", ofStrs cmds), ("text", ofStr (join cmds))])
+                                     ("cmds", ofStrs cmds), ("text", ofStr (join cmds)),
+                                     ("aliases", envToJson s.aliases), ("oldAliases", optToJson s.oldAliases)])
   | _ => throw s!"unknown op {op}"
 
 end EupsModel.Drv.C05
